@@ -470,6 +470,11 @@ def xsd_repr(value: AnyXSDType) -> str:
         return value.hex()
     elif isinstance(value, str):
         return value
+    elif isinstance(value, Decimal):
+        if not value.is_finite():
+            raise ValueError("{} is not in the value space of xs:decimal".format(value))
+        # str() would use scientific notation for some exponents (e.g. '1E+5'), which is not allowed for xs:decimal
+        return "{:f}".format(value)
     elif isinstance(value, float):
         return repr(value).translate({0x65: 'E', 0x66: 'F', 0x69: 'I', 0x6e: 'N'})
     else:
